@@ -70,7 +70,7 @@ def run_case(case, ctx):
 					nm = clean_name(f'{stem}_{i}', ext, mode == 'list')
 					lab = H.expected_label(nm)
 				used.add(lab)
-				rel.append(os.path.join(f'g{i}', nm))
+				rel.append(nm if (i % 2 == 0 and nm not in rel) else os.path.join(f'g{i}', nm))
 			paths = H.write_genomes(os.path.join(d, 'base'), genomes, rel)
 			labels = [H.expected_label(p) for p in rel]
 			sigs = H.ref_sigs(genomes, eff[0], eff[1])
